@@ -130,7 +130,8 @@ func (g *ExprGen) Of(k model.Kind, depth int, noTern bool) gast.Expr {
 		return gast.Infix{Op: g.pick(ops), L: g.Any(depth-1, noTern), R: g.Any(depth-1, noTern)}
 	}
 	if !noTern && !g.NoTernary && r.Intn(9) == 0 {
-		return gast.Ternary{C: g.Any(depth-1, true), A: g.Of(k, depth-1, true), B: g.Of(k, depth-1, true)}
+		// the condition may itself contain a ternary (only the arms may not)
+		return gast.Ternary{C: g.Any(depth-1, false), A: g.Of(k, depth-1, true), B: g.Of(k, depth-1, true)}
 	}
 	if r.Intn(5) == 0 {
 		return g.leaf(k)
